@@ -550,8 +550,20 @@ int gd_alter_affixes(DIRFILE *D, int index, const char *prefix,
 
   GD_RETURN_ERR_IF_INVALID(D);
 
+  if ((D->flags & GD_ACCMODE) != GD_RDWR)
+    GD_SET_RETURN_ERROR(D, GD_E_ACCMODE, 0, NULL, 0, NULL);
+
   if (index <= 0 || index >= D->n_fragment) 
     GD_SET_RETURN_ERROR(D, GD_E_BAD_INDEX, 0, NULL, index, NULL);
+
+  /* the /INCLUDE line lives in the parent, the renamed fields in the fragment */
+  if (D->fragment[D->fragment[index].parent].protection & GD_PROTECT_FORMAT)
+    GD_SET_RETURN_ERROR(D, GD_E_PROTECTED, GD_E_PROTECTED_FORMAT, NULL, 0,
+        D->fragment[D->fragment[index].parent].cname);
+
+  if (D->fragment[index].protection & GD_PROTECT_FORMAT)
+    GD_SET_RETURN_ERROR(D, GD_E_PROTECTED, GD_E_PROTECTED_FORMAT, NULL, 0,
+        D->fragment[index].cname);
 
   /* split off the namespace, if present */
   if (D->standards >= 10 && prefix) {
@@ -630,6 +642,22 @@ const char *gd_fragment_namespace(DIRFILE *D, int index, const char *nsin)
   }
 
   if (nsin) {
+    if ((D->flags & GD_ACCMODE) != GD_RDWR) {
+      _GD_SetError(D, GD_E_ACCMODE, 0, NULL, 0, NULL);
+      dreturn("%p", NULL);
+      return NULL;
+    }
+
+    /* the /INCLUDE line lives in the parent, the renamed fields here */
+    if ((D->fragment[D->fragment[index].parent].protection |
+          D->fragment[index].protection) & GD_PROTECT_FORMAT)
+    {
+      _GD_SetError(D, GD_E_PROTECTED, GD_E_PROTECTED_FORMAT, NULL, 0,
+          D->fragment[index].cname);
+      dreturn("%p", NULL);
+      return NULL;
+    }
+
     ns = _GD_NormaliseNamespace(D, nsin, &nsl);
     if (ns == NULL) {
       dreturn("%p", NULL);
